@@ -158,28 +158,32 @@ def reqLine : Req → String
   | .createSc _ => "create:SC:default"
   | .createDrc => "create:DRC:default"
 
-/-- every request issued (attempted), in order -/
-def issued {α : Type} (plan : Plan) : Nat → Prog Req Resp α → Store → List Req
+/-- every request issued (attempted), in order, under the peer's interference `env` -/
+def issued {α : Type} (env : Env Store) (plan : Plan) (k : Nat) (p : Prog Req Resp α) (s : Store) : List Req :=
+  (callLogE sem env plan k p s).map (·.1)
+
+/-- number of own applied requests that changed the store -/
+def changed {α : Type} (env : Env Store) (plan : Plan) (k : Nat) (p : Prog Req Resp α) (s : Store) : Nat :=
+  ((ownE sem env plan k p s).filter fun x => decide ((sem.exec x.1 x.2).1 ≠ x.1)).length
+
+/-- (store before, store after) of every action of the environment during the run -/
+def envSteps {α : Type} (env : Env Store) (plan : Plan) : Nat → Prog Req Resp α → Store → List (Store × Store)
   | _, .ret _, _ => []
   | k, .call r c, s =>
-    match plan k with
-    | .ok => r :: issued plan (k+1) (c (sem.exec s r).2) (sem.exec s r).1
-    | .fail => r :: issued plan (k+1) (c (sem.errResp .fail r)) s
-    | .conflict => r :: issued plan (k+1) (c (sem.errResp .conflict r)) s
-    | .crashBefore => [r]
-    | .crashAfter => [r]
+    (s, env k s) :: match plan k with
+    | .ok => envSteps env plan (k+1) (c (sem.exec (env k s) r).2) (sem.exec (env k s) r).1
+    | .fail => envSteps env plan (k+1) (c (sem.errResp .fail r)) (env k s)
+    | .conflict => envSteps env plan (k+1) (c (sem.errResp .conflict r)) (env k s)
+    | .crashBefore => []
+    | .crashAfter => []
 
-/-- number of applied requests that changed the store -/
-def changed {α : Type} (plan : Plan) : Nat → Prog Req Resp α → Store → Nat
-  | _, .ret _, _ => 0
-  | k, .call r c, s =>
-    let d := if (sem.exec s r).1 = s then 0 else 1
-    match plan k with
-    | .ok => d + changed plan (k+1) (c (sem.exec s r).2) (sem.exec s r).1
-    | .fail => changed plan (k+1) (c (sem.errResp .fail r)) s
-    | .conflict => changed plan (k+1) (c (sem.errResp .conflict r)) s
-    | .crashBefore => 0
-    | .crashAfter => d
+def secretOf (x : Json) : Secret :=
+  ⟨str x "name", blobOf (obj x "crt"), blobOf (obj x "key"), blobOf (obj x "ca"), jInt x "others", jInt x "meta"⟩
+
+/-- the peer writes of run number `i` -/
+def peersOf (scn : Json) (i : Nat) : List PeerWrite :=
+  (arr scn "peer").filterMap fun p =>
+    if nat p "run" = i then some ⟨nat p "before", (arr p "secrets").map secretOf⟩ else none
 
 def imgObs (i : Img) : Json :=
   match i.ref with
@@ -210,6 +214,21 @@ def noSecondOk (before after : Store) : Bool :=
 def installCount (steps : List Step) : Nat :=
   (steps.filter fun s => match s with | .install _ _ _ => true | _ => false).length
 
+/-- (b) on one own secret write that was answered ok: at the end of the run the secret is what was written,
+and it chains to the complete CA secret stored then -/
+def chainOk (ca : String) (t : Store) (new : Secret) : Bool :=
+  match findSecret t ca, findSecret t new.name with
+  | some sec, some l =>
+    l == new && isComplete sec &&
+      (match sec.crt, l.crt with
+       | .cert C, .cert c => l.key == .key c.kp && l.ca == .cert C && c.signedBy == C.kp
+       | _, _ => false)
+  | _, _ => false
+
+def respOk : Resp → Bool
+  | .ok => true
+  | _ => false
+
 def drvCaNames (steps : List Step) : List String :=
   steps.filterMap fun s => match s with
     | .tls ca sv cl => if sv.isSome || cl.isSome then some ca else none
@@ -221,21 +240,34 @@ def handler : Handler := fun scn =>
     if str scn "kind" == "init" && has scn "cfg" then initSteps (cfgOf (obj scn "cfg")) else (arr scn "steps").map stepOf
   let s0 := storeOf (obj scn "store")
   let imgs := (steps.flatMap stepImgs) ++ (s0.pkgs.map fun p => (⟨p.raw, p.ref⟩ : Img))
-  let (outs, _, propOk, why) := (arr scn "runs").foldl (fun (acc : List Json × Store × Bool × String) rj =>
-    let (outs, s, okSoFar, why) := acc
+  let cas := drvCaNames steps
+  let (outs, _, propOk, why, _) := (arr scn "runs").foldl (fun (acc : List Json × Store × Bool × String × Nat) rj =>
+    let (outs, s, okSoFar, why, idx) := acc
     let plan := planOf rj
     let n := nat rj "nonce"
     let prog := runSteps stdGen steps n 0
-    let (s', r) := run sem plan 0 prog s
-    let log := (issued plan 0 prog s).map reqLine
+    let env := peerEnv (peersOf scn idx)
+    let (s', r) := runE sem env plan 0 prog s
+    let log := (issued env plan 0 prog s).map reqLine
     let (res, done) : String × Nat := match r with
       | none => ("crash", 0)
       | some (.ok, _, d) => ("ok", d)
       | some (.err _, _, d) => ("err", d)
-    let out := Json.mkObj [("res", .str res), ("done", .num (Lean.JsonNumber.fromNat done)), ("writes", .num (Lean.JsonNumber.fromNat (changed plan 0 prog s))),
+    let out := Json.mkObj [("res", .str res), ("done", .num (Lean.JsonNumber.fromNat done)), ("writes", .num (Lean.JsonNumber.fromNat (changed env plan 0 prog s))),
       ("log", .arr (log.map Json.str).toArray), ("store", storeJson s')]
-    let kept := keptOk (drvCaNames steps) s s' && (installCount steps != 1 || noSecondOk s s')
-    (outs ++ [out], s', okSoFar && kept, if kept then why else "C20:model-property-false (kept material or no-second-package)")) ([], s0, true, "")
+    let own := ownE sem env plan 0 prog s
+    -- (a) for every environment: no own call rewrites a secret that is protected at that moment
+    let ownKeeps := own.all fun x => keptOk cas x.1 (sem.exec x.1 x.2).1
+    -- the rely: the peer never rewrites a protected secret
+    let rely := (envSteps env plan 0 prog s).all fun x => keptOk cas x.1 x.2
+    -- under the rely: protected secrets of the start are in place at the end, and (b) what we wrote chains to the stored CA
+    let chains := match cas.eraseDups with
+      | [ca] => own.all fun x => match x.2.writes with
+          | some new => new.name == ca || !respOk (sem.exec x.1 x.2).2 || chainOk ca s' new
+          | none => true
+      | _ => true
+    let kept := ownKeeps && (!rely || (keptOk cas s s' && chains)) && (installCount steps != 1 || noSecondOk s s')
+    (outs ++ [out], s', okSoFar && kept, (if kept then why else "C20:model-property-false (kept material, own writes chain, or no-second-package)"), idx + 1)) ([], s0, true, "", 0)
   let out := Json.mkObj [("imgs", .arr (imgs.map imgObs).toArray), ("runs", .arr outs.toArray)]
   .ok (out, propOk, why)
 
